@@ -206,6 +206,9 @@ pub fn check<T: Acc>(p: &Pool<T>, s: &mut Sink) {
         }
         r.check(m, &case, s);
         s.outcome(&(T::NAME, m.len(), q1.len(), crate::pool::has_comp(&before)));
+        if before.contains("compensation") {
+            s.count("states-exposing-a-compensation-term", 1);
+        }
         if has_comp(&before) {
             s.count("states-with-nonzero-compensation", 1);
         }
